@@ -1405,6 +1405,31 @@ def div_atoms():
     return [Sym(Poly.atom(REG.atoms[i])) for i in CTX.div_info]
 
 
+def near_quotients(rel=1e-9):
+    """pairs of quotient atoms whose numerators and denominators agree, after normalisation, up to coefficient differences <= rel
+    (the same quantity computed along two routes with different rounding): yields (q_a, q_b, f) with q_a ~= f * q_b.  The harness
+    states |q_a - f q_b| <= tol as a lemma -- it is proved by the exact solver before it is used."""
+    items = list(CTX.div_info.items())
+    norm = []
+    for i, (n, d) in items:
+        cn, cd = _lead(n), _lead(d)
+        norm.append((i, n.scale(1 / cn), d.scale(1 / cd), cn / cd))
+
+    def close(p, q):
+        for m in set(p.t) | set(q.t):
+            if abs(p.t.get(m, 0) - q.t.get(m, 0)) > rel:
+                return False
+        return True
+    out = []
+    for x in range(len(norm)):
+        for y in range(x + 1, len(norm)):
+            i, n1, d1, f1 = norm[x]
+            j, n2, d2, f2 = norm[y]
+            if close(n1, n2) and close(d1, d2):
+                out.append((Sym(Poly.atom(REG.atoms[i])), Sym(Poly.atom(REG.atoms[j])), f1 / f2))
+    return out
+
+
 class PathResult:
     __slots__ = ("trace", "pc", "defs", "monos", "kind", "value", "stub_log", "uf_apps", "ndef", "lemmas", "uf_defs")
 
